@@ -17,7 +17,8 @@ TECHNIQUE = "runtime reference-model monitor of to_DiGraph: node set/attributes,
 RULE = ("programs of 1-60 operations over 1-6 modes (few modes => contended wires), 1-4 modes per operation, with and without argument "
         "lists, register arguments in positional and keyword position, built through loads() and directly through the API; non-trivial = "
         ">=4 operations, a multi-mode operation and either a register dependency or an argument-less operation; distinct by SHA-1 of the op list"
-        '; a tenth of the programs use negative mode numbers')
+        '; a tenth of the programs use negative mode numbers'
+        '; register-valued variables used as arguments; a tenth of the programs run as an included file applied 2-4 times')
 BUDGET = {"quick": 6000, "thorough": 100000}
 MIN_NONTRIVIAL = {"quick": 800, "thorough": 8000}
 REQUIRED_FUNCTIONS = ["utils.py:to_DiGraph"]
